@@ -37,11 +37,14 @@ def build_decls(rng, subs, n_containers=None, n_plates=None):
         if not any(s.is_liquid() for s in chosen):
             chosen.append(rng.choice(liqs))
         init = []
+        trace = rng.random() < 0.25       # trace solutes: nanomolar stocks (concentrations of 1e-9 .. 1e-6 in base units)
         for s in chosen:
             if s.is_enzyme():
                 init.append((s, f'{rng.randint(1, 500) / 10} U'))
             elif s.is_liquid():
                 init.append((s, f'{rng.randint(5, 100)} mL'))
+            elif trace:
+                init.append((s, f'{10 ** rng.uniform(-2, 2.9):.3g} {rng.choice(["ng", "ng", "ug", "nmol"])}'))
             else:
                 init.append((s, f'{rng.randint(1, 40) * 50} mg'))
         cap = rng.choice([None, None, f'{rng.randint(400, 900)} mL'])
@@ -282,9 +285,9 @@ def refused_attempt(r, handles, rng, open_stage, closed, subs):
 def add_step(r, handles, s):
     op = s['op']
     if op == 'start_stage':
-        r.start_stage(s['name'])
+        r.start_stage(''.join(list(s['name'])))      # equal but distinct str objects, as names built at run time are
     elif op == 'end_stage':
-        r.end_stage(s['name'])
+        r.end_stage(''.join(list(s['name'])))
     elif op == 'transfer':
         r.transfer(ref_of(handles, s['src']), ref_of(handles, s['dst']), s['q'])
     elif op == 'remove':
@@ -498,7 +501,9 @@ def gen_program(rng, case, focus=None, allow_infeasible=True):
                 if solv != solute:
                     num, den = rng.choice([('mol', 'L'), ('g', 'L'), ('g', 'g'), ('mol', 'mol')])
                     c0 = R.concentration(cur[t].contents, solute, num, den)
-                    if 1e-4 < c0 < 1e6:
+                    if 1e-13 < c0 < 1e6:
+                        if c0 < 1e-4:
+                            M.bucket('C08/dilute/trace_concentration')
                         st = {'op': 'dilute', 'dst': t, 'solute': solute, 'solvent': solv,
                               'conc': f'{c0 * rng.uniform(0.3, 0.9):.6g} {num}/{den}',
                               'new_name': rng.choice([None, None, f'renamed{created}']) if case.get('prop') == 'C08' else None}
